@@ -3328,8 +3328,10 @@ class sptensor:
             if other == 0:
                 nansubsidx = tt_setdiff_rows(self.allsubs(), newsubs)
                 nansubs = self.allsubs()[nansubsidx]
-                newsubs = np.vstack((newsubs, nansubs))
-                newvals = np.vstack((newvals, np.nan * np.ones((nansubs.shape[0], 1))))
+                newsubs = np.vstack((newsubs.reshape(-1, self.ndims), nansubs))
+                newvals = np.vstack(
+                    (newvals.reshape(-1, 1), np.nan * np.ones((nansubs.shape[0], 1)))
+                )
             return ttb.sptensor(newsubs, newvals, self.shape)
 
         # Tensor divided by a tensor
@@ -3341,60 +3343,30 @@ class sptensor:
 
         # Two sparse tensors
         if isinstance(other, ttb.sptensor):
-            # Find where their zeros are
-            if self.subs.size == 0:
-                SelfZeroSubs = self.allsubs()
-            else:
-                SelfZeroSubsIdx = tt_setdiff_rows(self.allsubs(), self.subs)
-                SelfZeroSubs = self.allsubs()[SelfZeroSubsIdx]
-            if other.subs.size == 0:
-                OtherZeroSubs = other.allsubs()
-            else:
-                OtherZeroSubsIdx = tt_setdiff_rows(other.allsubs(), other.subs)
-                OtherZeroSubs = other.allsubs()[OtherZeroSubsIdx]
+            # Self nonzero: divide by the value of other at the same subscript
+            # (an implicit zero of other gives +-inf)
+            newsubs = np.empty((0, self.ndims), dtype=int)
+            newvals = np.empty((0, 1))
+            if self.nnz > 0:
+                newsubs = self.subs
+                with np.errstate(divide="ignore", invalid="ignore"):
+                    newvals = self.vals / other.extract(self.subs)
 
-            # Both nonzero
-            if self.subs.size > 0 and other.subs.size > 0:
-                idxSelf = tt_intersect_rows(self.subs, other.subs)
-                idxOther = tt_intersect_rows(other.subs, self.subs)
-                newsubs = self.subs[idxSelf, :]
-                newvals = self.vals[idxSelf] / other.vals[idxOther]
-            else:
-                newsubs = np.empty((0, len(self.shape)))
-                newvals = np.empty((0, 1))
+            # Self zero and other nonzero: 0/y = 0, nothing to store
 
-            # Self nonzero and other zero
-            if self.subs.size > 0:
-                moresubs = tt_intersect_rows(self.subs, OtherZeroSubs)
-                morevals = np.empty((moresubs.shape[0], 1))
-                morevals.fill(np.nan)
-                if moresubs.size > 0:
-                    newsubs = np.vstack((newsubs, SelfZeroSubs[moresubs, :]))
-                    newvals = np.vstack((newvals, morevals))
+            # Both zero: 0/0 = nan
+            SelfZeroSubs = self.allsubs()[tt_setdiff_rows(self.allsubs(), self.subs)]
+            nansubs = SelfZeroSubs[tt_setdiff_rows(SelfZeroSubs, other.subs)]
+            nanvals = np.nan * np.ones((nansubs.shape[0], 1))
 
-            # other nonzero and self zero
-            if other.subs.size > 0:
-                moresubs = tt_intersect_rows(other.subs, SelfZeroSubs)
-                morevals = np.empty((moresubs.shape[0], 1))
-                morevals.fill(0)
-                if moresubs.size > 0:
-                    newsubs = np.vstack((newsubs, OtherZeroSubs[moresubs, :]))
-                    newvals = np.vstack((newvals, morevals))
-
-            # Both zero
-            moresubs = tt_intersect_rows(SelfZeroSubs, OtherZeroSubs)
-            morevals = np.empty((SelfZeroSubs[moresubs, :].shape[0], 1))
-            morevals.fill(np.nan)
-            if moresubs.size > 0:
-                newsubs = np.vstack((newsubs, SelfZeroSubs[moresubs, :]))
-                newvals = np.vstack((newvals, morevals))
-
-            return ttb.sptensor(newsubs, newvals, self.shape)
+            return ttb.sptensor(
+                np.vstack((newsubs, nansubs)),
+                np.vstack((newvals, nanvals)),
+                self.shape,
+            )
 
         if isinstance(other, ttb.tensor):
-            csubs = self.subs
-            cvals = self.vals / other[csubs][:, None]
-            return ttb.sptensor(csubs, cvals, self.shape)
+            return self / other.to_sptensor()
         if isinstance(other, ttb.ktensor):
             # TODO consider removing epsilon and generating nans consistent with above
             epsilon = np.finfo(float).eps
